@@ -117,7 +117,7 @@ func (B *Bounds) sites(fn *ssa.Function) []bSite {
 						continue
 					}
 				}
-				add(ins, "index", "&"+sx(x.X)+"["+sx(x.Index)+"]",
+				add(ins, "index", "&"+sx(bf.canon(x.X))+"["+bf.affString(idx)+"]",
 					ge0(idx, "index ≥ 0"), ge0(ln.add(idx, -1).add(affConst(1), -1), "index < len"))
 			case *ssa.Index:
 				idx := bf.affOf(x.Index)
@@ -158,7 +158,15 @@ func (B *Bounds) sites(fn *ssa.Function) []bSite {
 				if trivial {
 					continue
 				}
-				add(ins, "slice", sx(x), reqs...)
+				desc := sx(bf.canon(x.X)) + "["
+				if x.Low != nil {
+					desc += bf.affString(lo)
+				}
+				desc += ":"
+				if x.High != nil {
+					desc += bf.affString(bf.affOf(x.High))
+				}
+				add(ins, "slice", desc+"]", reqs...)
 			case *ssa.SliceToArrayPointer:
 				n, _ := arrayLen(x.Type())
 				add(ins, "slice", "(*[N])("+sx(x.X)+")", ge0(bf.lenAff(x.X).add(affConst(n), -1), "len ≥ array length"))
